@@ -21,8 +21,10 @@ func GenC11(seed uint64) *Scenario {
 		s := genForkScenario(seed, "C11")
 		s.Family = "forks"
 		return s
-	case 4, 5, 6:
+	case 4, 5:
 		return genC11Limit(seed, r)
+	case 6:
+		return genC11LimitParallel(seed, r)
 	}
 	// strategy family: stores of every policy merged across segments
 	b := genBase(r, GenOpts{WantStores: r.Range(1, 3), MinMods: 3, MaxMods: 6, NoIndex: true, MaxOps: 4}, 0)
@@ -54,6 +56,89 @@ func genC11Limit(seed uint64, r *Rng) *Scenario {
 	return s
 }
 
+// genC11LimitParallel: lowered limit with back-fill. Partial stores and merges have no limit check by design, so
+// the outcome of the request is not held to the sequential reference; what must hold is that a FULL store advanced
+// block by block (live or by replaying a cached operation log, inside a higher-stage tier2 job) never grows past the
+// limit without the job failing.
+func genC11LimitParallel(seed uint64, r *Rng) *Scenario {
+	b := genBase(r, GenOpts{WantStores: r.Range(2, 3), MinMods: 4, MaxMods: 6, NoIndex: true, Policies: []string{"set", "setnx", "append"}, BigVal: 150, MaxOps: 3}, 0)
+	s := &Scenario{Prop: "C11", Seed: seed, Family: "limit_parallel", Pkg: b.pkg, Head: b.head, ConfDepth: 2}
+	genPolicy(r, s)
+	s.SizeLimit = uint64(r.Range(150, 900))
+	nh := r.Range(0, 1)
+	for i := 0; i <= nh; i++ {
+		h := HistItem{Req: genDeepReq(r, b, b.pkg.Output, 0, 2, 5)}
+		h.Req.DebugSnap = nil
+		if i < nh && r.Chance(2, 3) {
+			// cached operation logs stay, snapshots go: the next request replays the logs into full stores
+			h.EvictN = []int{300, 600, 1000}[r.Intn(3)]
+			h.EvictK = []string{"states", "full", "partial"}[r.Intn(3)]
+		}
+		s.History = append(s.History, h)
+	}
+	fixHead(s)
+	return s
+}
+
+// limitObs watches full stores inside tier2 jobs: a block that was accepted must not have grown one past the limit.
+type limitObs struct {
+	mu     sync.Mutex
+	limit  uint64
+	before map[*pipeline.Pipeline]map[string]uint64
+	bad    string
+	grown  int
+}
+
+func realSize(s StoreState) uint64 {
+	var n uint64
+	for k, v := range s.KV {
+		n += uint64(len(k) + len(v))
+	}
+	return n
+}
+
+func (o *limitObs) BeforeStream(pipe *pipeline.Pipeline) {
+	st := snapshotStores(pipe)
+	o.mu.Lock()
+	defer o.mu.Unlock()
+	m := map[string]uint64{}
+	for name, s := range st {
+		if s.Full {
+			m[name] = realSize(s)
+		}
+	}
+	o.before[pipe] = m
+}
+
+func (o *limitObs) AfterStep(pipe *pipeline.Pipeline, blk *CBlock, step bstream.StepType, err error) {
+	if err != nil || pipe == nil {
+		return
+	}
+	st := snapshotStores(pipe)
+	o.mu.Lock()
+	defer o.mu.Unlock()
+	prev := o.before[pipe]
+	if prev == nil {
+		return
+	}
+	for _, name := range sortedStoreNames(st) {
+		s := st[name]
+		if !s.Full {
+			continue
+		}
+		now := realSize(s)
+		was, known := prev[name]
+		if known && now > was {
+			o.grown++
+			// the last delta that is not a delete left the store at least this big, and every such delta is checked
+			if now > o.limit && o.bad == "" {
+				o.bad = fmt.Sprintf("full store %s grew from %d to %d bytes on block %s inside a tier2 job, limit is %d, and the block was accepted", name, was, now, blk.ID, o.limit)
+			}
+		}
+		prev[name] = now
+	}
+}
+
 type sizeObs struct {
 	mu    sync.Mutex
 	where string
@@ -79,6 +164,7 @@ func (o *sizeObs) AfterStep(pipe *pipeline.Pipeline, blk *CBlock, step bstream.S
 type c11Checker struct {
 	fork  *c03Checker
 	t2    *sizeObs
+	lim   *limitObs
 	inner *stratChecker
 }
 
@@ -86,6 +172,11 @@ func (c *c11Checker) Setup(x *Exec) *Violation {
 	if x.S.Fork != nil {
 		c.fork = &c03Checker{prop: "C11"}
 		return c.fork.Setup(x)
+	}
+	if x.S.Family == "limit_parallel" {
+		c.lim = &limitObs{limit: x.S.SizeLimit, before: map[*pipeline.Pipeline]map[string]uint64{}}
+		x.Env.T2Obs = c.lim
+		return nil
 	}
 	c.t2 = &sizeObs{where: "inside a tier2 job"}
 	x.Env.T2Obs = c.t2
@@ -99,6 +190,28 @@ func (c *c11Checker) AfterRequest(x *Exec, idx int, h *HistItem, res *RunResult)
 	}
 	if x.S.Family == "limit" {
 		return c.limit(x, idx, h, res)
+	}
+	if x.S.Family == "limit_parallel" {
+		if c.lim.bad != "" {
+			return viol("C11", "limit_late", "%s", c.lim.bad)
+		}
+		if res.Outcome != OutDone {
+			return viol("C11", "hang", "request did not finish under a lowered size limit (outcome %d)", res.Outcome)
+		}
+		if res.HasErr && !strings.Contains(res.Err.Error(), "became too big") {
+			return viol("C11", "unexpected_error", "request failed with something else than a size rejection: %v", res.Err)
+		}
+		if res.HasErr {
+			x.Probe("parallel_limit_rejection")
+			if !isInvalidArgument(res) {
+				return viol("C11", "wrong_error_code", "store too big must be reported as invalid argument, got %s", codeName(res.Code))
+			}
+		}
+		if c.lim.grown > 0 {
+			x.Probe("full_store_growth_in_tier2_checked")
+			x.Rep.NonTrivial = true
+		}
+		return nil
 	}
 	if v := c.inner.AfterRequest(x, idx, h, res); v != nil {
 		return v
